@@ -262,6 +262,41 @@ def near_limit(ctx, res):
                                                        % (limit - below, limit), "chunks": [c.hex() for c in chunks],
                                                "limit": limit, "fragmented": line[-120:], "unfragmented": whole_line[-120:]})
                         break
+            # … and frames whose length is over the limit with their whole body present (possible only because the limit is
+            # small here): refused at that point — the frames before it delivered, nothing after — wherever the cuts fall
+            for over in (1, 2, 137):
+                pre = [gens.msg_header(rng).serialize() + gens.message(rng).serialize() for _ in range(2)]
+                pre = [x for x in pre if len(x) <= limit][:rng.randrange(0, 3)]
+                while True:
+                    body = gens.msg_header(rng).serialize() + gens.message(rng).serialize()
+                    if len(body) <= limit + over:
+                        break
+                body = body + gens.rb(rng, limit + over - len(body))            # a decodable message, padded to limit + over
+                tail = gens.msg_header(rng).serialize() + gens.message(rng).serialize()
+                s = b"".join(frame(x) for x in pre) + frame(body) + (frame(tail) if len(tail) <= limit else b"")
+                whole_line, payloads, err = impl_feed([s])
+                ops.append("frames %d %s" % (limit, hx(s)))
+                impl.append(whole_line)
+                res.count("over_limit_with_whole_body")
+                if err != "toobig" or len(payloads) != len(pre):
+                    res.violations.append({"kind": "a frame announcing %d bytes (limit %d) whose whole body was present was not refused "
+                                                   "at that point: %d message(s) delivered (%d precede it), outcome %s"
+                                                   % (limit + over, limit, len(payloads), len(pre), err),
+                                           "stream": s.hex(), "limit": limit})
+                n = len(s)
+                for pts in [[a] for a in range(0, n + 1, 1 if n < 700 else 3)] + \
+                        [sorted(rng.randrange(0, n + 1) for _ in range(rng.randrange(2, 6))) for _ in range(30)]:
+                    chunks = cuts(s, pts)
+                    line, _, _ = impl_feed(chunks)
+                    ops.append("frames %d %s" % (limit, " ".join(hx(c) for c in chunks)))
+                    impl.append(line)
+                    res.case(("over-limit-body", limit, over, tuple(pts)), nontrivial=True)
+                    if line != whole_line:
+                        res.violations.append({"kind": "extraction depends on fragmentation (a frame announcing %d bytes, limit %d, with "
+                                                       "its whole body present)" % (limit + over, limit),
+                                               "chunks": [c.hex() for c in chunks], "limit": limit,
+                                               "fragmented": line[-120:], "unfragmented": whole_line[-120:]})
+                        break
             model = ctx.driver.ask(ops)
             kit.compare(res, ops, impl, model)
         finally:
